@@ -70,15 +70,19 @@ class ScriptedRng:
         return [items[i] for i in idx]
 
     def integers(self, low, high=None, size=None, dtype=np.int64, endpoint=False):
-        if size is not None:
-            return self._fb('integers(size=)').integers(low, high, size=size, endpoint=endpoint)
         if high is None:
             low, high = 0, low
+        if not isinstance(low, (int, np.integer)) or not isinstance(high, (int, np.integer)):
+            return self._fb('integers(array bounds)').integers(low, high, size=size, endpoint=endpoint)
         low, high = int(low), int(high)
         if endpoint:
             high += 1
         if high <= low:
             raise ValueError('low >= high')
+        if size is not None:
+            shape = (int(size),) if isinstance(size, (int, np.integer)) else tuple(int(k) for k in size)
+            n = int(np.prod(shape)) if shape else 1
+            return np.array([low + self._draw(high - low) for _ in range(n)], dtype=np.int64).reshape(shape)
         return np.int64(low + self._draw(high - low))
 
     def shuffle(self, x, axis=0):
